@@ -4,7 +4,7 @@ from common import jhash, first_diff
 from pkgrun import *
 
 PROF = profile(blocks=(0, 5), p_table=0.3, p_sdt_block=0.15, p_customxml=0.12, p_block_misc=0.08, max_depth=4, p_cell_block=0.5,
-               p_cell_nopar=0.12, p_sdt_cell=0.15, p_textbox=0.12, p_grid_gap=0.2, p_span=0.35, p_vmerge=0.35)
+               p_cell_nopar=0.12, p_sdt_cell=0.15, p_textbox=0.12, p_grid_gap=0.2, p_span=0.35, p_vmerge=0.35, bare_vals=True)
 RULE = ('packages from the "wild nesting" profile (tables in cells up to depth 4, text boxes in runs in cells, block content controls, '
         'customXml wrappers, cells without paragraphs, grid gaps, merged cells) x 4 option settings x 6 attributes x 3 views; '
         'non-trivial = body has a table or wrapper nested below another; distinct by hash of the archive')
@@ -36,6 +36,11 @@ def one(ctx, data, meta=None, opts=pk.OPTS):
             mtrip = [m.get(part + '_pars'), m.get(part + '_runs'), m.get(part)]
             if any(t is None or 'err' in t for t in trip):
                 ctx.skipped_raises += 1          # an exception is C13's business ...
+                for name, t, mt in zip(['_pars', '_runs', ''], trip, mtrip):
+                    # ... unless the model (which raises wherever the code at the pinned commit raises) returns a view here
+                    if t is not None and 'err' in t and mt is not None and 'ok' in mt:
+                        ctx.fail('a view raises where the model returns a nested list: the attribute is not a 4-deep list for this well-formed part',
+                                 case_payload(data, html=html, dup=dup, part=part), {'view': part + name, 'raised': t['err']}); good = False; break
                 if trip[0] is not None and 'ok' in trip[0]:
                     # ... but a record view that IS returned must still be four levels deep with paragraph records
                     def bad(x, d):
